@@ -19,6 +19,8 @@ pub fn any_below(bound: usize) -> Option<usize> {
 }
 
 #[cfg(kani)]
+mod c01;
+#[cfg(kani)]
 mod c02;
 #[cfg(kani)]
 mod c03;
